@@ -89,10 +89,10 @@ def make_noises(rng, d):
     return process, sensor
 
 
-def compile_ekf(d, process, sensor, cal, rng=None, cse=True, filtering=None, max_dt=0.1, container="set"):
+def compile_ekf(d, process, sensor, cal, rng=None, cse=True, filtering=None, max_dt=0.1, container="set", model_obj=None):
     from formak import python
     core.set_tolerance(getattr(d, "transcend", False))
-    m = fk.ui_model(d, rng, container)
+    m = model_obj if model_obj is not None else fk.ui_model(d, rng, container)
     sensors = {k: dict(rd) for k, rd in d.sensors.items()}
     with fk.quiet():
         return python.compile_ekf(
